@@ -132,6 +132,10 @@ def main(argv=None):
     args = ap.parse_args(argv)
     seed = int(os.environ.get("VERIF_SEED", "0") or 0)
     tier = args.tier if args.tier in ("quick", "thorough") else "quick"
+    if tier == "thorough":
+        # thorough tier: every obligation z3 discharges is sent to cvc5 as well (agreement required: a `sat` from
+        # cvc5 makes the obligation undecided); read at import time by the worker processes
+        os.environ["PYVC_SECOND_OPINION"] = "1"
     prop = args.prop
     t0 = time.time()
     try:
@@ -172,6 +176,13 @@ def run_property(prop, tier, seed, args):
     standins = []
     for fn in index.STANDINS.get(prop, []):
         standins.append(fn(seed, tier))
+    selftest_res = None
+    if tier == "thorough":
+        # engine self-validation (DESIGN 2.10): CPython differential of the value model; a disagreement means the
+        # checker is broken (exit 3), whatever the obligations said
+        from pyvc import selftest
+
+        selftest_res = selftest.run(seed, 3)
 
     known = [k for k in load_known_findings() if k["property"] == prop or prop in k.get("also", [])]
     baseline = load_baseline().get(prop, {})
@@ -278,6 +289,9 @@ def run_property(prop, tier, seed, args):
                             res, confirmed = res2, True
                             break
             handle_refutation(prop, r, ref, res, confirmed, known, baseline, violations, known_lines, undecided)
+    if selftest_res is not None:
+        for d in selftest_res["disagreements"]:
+            errors.append(("engine self-test", d["function"], f"CPython: {d['cpython']}; engine: {d['engine']}; inputs {d['inputs']} ({d['mode']})"))
     for e in extra:
         ob_total += 1
         backends[e.get("backend", "?")] = backends.get(e.get("backend", "?"), 0) + 1
@@ -321,6 +335,7 @@ def run_property(prop, tier, seed, args):
             "dropped_constructs": sorted(dropped),
             "contracts_used_at_call_sites": sorted(a for a in assumptions if a.startswith("contract:")),
             "known_findings": known_lines,
+            "engine_selftest": selftest_res if selftest_res is not None else "thorough tier only",
             "explanation": _claim(prop).get("text", ""),
         },
         "assumptions": sorted(assumptions) + index.ASSUMPTIONS.get(prop, []) + ([_claim(prop)["note"]] if _claim(prop).get("note") else []),
